@@ -837,6 +837,9 @@ def run(R):
         "percent-encoding 2.3.2, form_urlencoded 1.2.2, serde_html_form 0.2.8, serde/serde_derive struct visitors, matchit 0.9.0 (single route, whole-segment parameters), http 1.4 `Uri` byte classes: modelled, validated by this correspondence only",
         "floats are outside the supported subset of the model (f32/f64 fields are not generated)",
     ]
+    R.notes.append("JsonBody: the Content-Type gate is modelled and diffed (op `ct`); serde_json parsing is NOT modelled in Lean and is covered by the "
+                   "Python-json oracle only (coverage.json_oracle_only). Known finding C15-lossy-utf8-query-form: query/form extraction replaces invalid UTF-8 "
+                   "by U+FFFD instead of failing (theorem query_invalid_utf8_not_rejected); fixed finding C15-json-trailing-characters (repo commit `fix: reject trailing characters ...`).")
     R.coverage["trusted_base"].append("the JSON canonicalisation of extracted structs in harness/crates/reqdata/src/shapes.rs and the error-message classifier in main.rs")
     if R.replay:
         rp = json.load(open(R.replay))["replay"]
